@@ -144,9 +144,17 @@ def resolve(world, cwd, s):
         parts = comps(s[len(w):])
     else:
         parts = comps(cwd) + comps(s)
-    if ".." in parts:
-        return None
-    return parts
+    # dot-dot segments as the OS resolves them (no symbolic links in the world): lexically, provided every
+    # directory stepped out of exists - the generators only step out of existing directories
+    out = []
+    for c in parts:
+        if c == "..":
+            if not out:
+                return None
+            out.pop()
+        else:
+            out.append(c)
+    return out
 
 
 # ---------------------------------------------------------------- snapshots
@@ -491,8 +499,18 @@ def execute_in(sb, sc, other_tmp=None):
             os.makedirs(src_dir, exist_ok=True)
             with open(os.path.join(src_dir, "main.rs"), "w") as f:
                 f.write(SOURCES[variant])
+        for src, dst in run.get("copy", []):
+            # a foreign file whose CONTENT is (part of) generated output: copied by the user before this run
+            sp, dp = os.path.join(world, src), os.path.join(world, dst)
+            if os.path.isfile(sp):
+                os.makedirs(os.path.dirname(dp), exist_ok=True)
+                data = open(sp, "rb").read()
+                with open(dp, "wb") as f:
+                    f.write(data if not run.get("copy_prefix") else data[:run["copy_prefix"]])
         detected = True
-        if entry == "generate":
+        if entry == "api":
+            eff = dict(default_cfg(), p=sub(world, a["p"]), o=sub(world, a["o"]), lib=a.get("v", "none"))
+        elif entry == "generate":
             eff = cli_effective(cwd_abs, {k: sub(world, v) for k, v in a.items()})
         elif entry == "build":
             detected, eff = build_effective(world, cwd_abs)
@@ -537,6 +555,8 @@ def execute_in(sb, sc, other_tmp=None):
         before = snapshot_all(world, other_tmp)
         if entry == "build":
             status, output = run_proc([vlib.harness_bin("c16"), "build1"], cwd_abs, env)
+        elif entry == "api":
+            status, output = run_proc([vlib.harness_bin("c16"), "api1", eff["p"], eff["o"], eff["lib"]], cwd_abs, env)
         else:
             status, output = run_proc([vlib.REPO_BIN, "tauri-typegen"] + cli_args(world, entry, a), cwd_abs, env)
         after = snapshot_all(world, other_tmp)
@@ -558,6 +578,8 @@ def execute_in(sb, sc, other_tmp=None):
             st["decision"] = "ok" if status == 0 else "failed"
         elif status != 0:
             st["decision"] = "failed"
+        elif entry == "api":
+            st["decision"] = "no-commands" if "FILES 0" in output else "regenerated"
         elif "No Tauri commands found" in output:
             st["decision"] = "no-commands"
         elif "bindings are up to date" in output:
@@ -844,6 +866,116 @@ def workspace_init_scenarios(rng, count):
                          "args": dict(a, v="none") if r.random() < 0.5 else {"p": "./" + crate, "o": gen}})
         scs.append({"name": "workspace-init-%d-%s" % (i, crate.replace("/", "_")), "cwd": "app", "proj_dir": "app/" + crate,
                     "dirs": dirs, "files": files, "runs": runs, "tmpdir": "same"})
+    return scs
+
+
+# ---- the configured output directory through every configuration source x names some layer might normalise
+WEIRD_OUT = [
+    "gen\\out", "gen\\", "C:\\gen", "gen.", "gen ", " gen", "gen..", "./gen", ".//gen", "gen//ts", "gen/ts/", "gen/./ts", "././gen/.",
+    "~", "~/gen", "gen%20out", "gen%2Fout", "gen+out", "g\u00e9n-\u00fc", "\u51fa\u529b/ts", "types.ts", "index.ts/out", ".typecache",
+    "generated_", "src-tauri/../gen", "./src-tauri/../src-tauri/../gen", "Gen", "GEN/ts", "$HOME/gen", "${TMPDIR}", "%TEMP%",
+    "gen*", "gen?", "[gen]", "{a,b}", "gen;ls", "gen&", "gen'q", 'gen"q', "gen#1", "gen=1", "a b/c d", "-gen".replace("-", "_-"),
+    "gen.ts", "gen.d.ts", "out.tmp",
+]
+
+
+def normalised_variants(w):
+    """Directories a normalising layer might turn the configured string into (where nothing may be written)."""
+    import unicodedata
+    import urllib.parse
+    v = {w.replace("\\", "/"), w.rstrip(". "), w.strip(), urllib.parse.unquote(w), w.lower(), w.upper(),
+         unicodedata.normalize("NFD", w), w.replace("~", "_env/home"), w.replace("$HOME", "_env/home"),
+         w.replace("C:\\", ""), w.split("/")[0]}
+    return sorted(x for x in v if x and x != w and ".." not in x)
+
+
+def outdir_scenarios(rng=None, count=0):
+    """Every configuration source (-o flag, -c file, tauri.conf.json read by the CLI, tauri.conf.json and typegen.json
+    read by the build script, the library entry generate_from_config) x WEIRD_OUT. Everything written must lie in
+    exactly the directory the OS resolves the configured string to; foreign reserved-named files wait in the
+    directories a normaliser would pick instead. rng=None: the full cross product, deterministic."""
+    sources = ["flag", "cfile", "tauri-cli", "tauri-build", "typegen-build", "api"]
+    combos = [(w, src) for w in WEIRD_OUT for src in sources]
+    if rng:
+        combos = [(rng.choice(WEIRD_OUT) + rng.choice(["", "/ts", "/", "\\x"]), rng.choice(sources)) for _ in range(count)]
+    scs = []
+    for i, (w, src) in enumerate(combos):
+        p = "./src-tauri"
+        files = {"app/keep.ts": "user"}
+        for d in normalised_variants(w)[:4]:
+            rel = resolve("/w", "app", d)
+            if rel and rel != resolve("/w", "app", w) and rel[:2] != ["app", "src-tauri"]:
+                for n in ("types.ts", "models.ts", "notes.ts", ".typecache"):
+                    files.setdefault("/".join(rel) + "/" + n, "foreign %s" % n)
+        lib = "zod" if i % 3 == 0 else "none"
+        if src == "flag":
+            runs = [{"entry": "generate", "args": {"p": p, "o": w, "v": lib}}]
+        elif src == "cfile":
+            files["app/my.json"] = json.dumps({"project_path": p, "output_path": w, "validation_library": lib, "visualize_deps": True})
+            runs = [{"entry": "generate", "args": {"c": "./my.json"}}]
+        elif src in ("tauri-cli", "tauri-build"):
+            files["app/tauri.conf.json"] = tauri_conf(p, w, lib, i % 2 == 0)
+            runs = [{"entry": "generate" if src == "tauri-cli" else "build", "args": {}}]
+        elif src == "typegen-build":
+            files["app/typegen.json"] = json.dumps({"project_path": p, "output_path": w, "validation_library": lib})
+            runs = [{"entry": "build", "args": {}}]
+        else:
+            runs = [{"entry": "api", "args": {"p": p, "o": w, "v": lib}}]
+        runs[0]["variant"] = "events" if i % 4 == 0 else "cmds"
+        runs.append(dict(runs[0], variant="cmds2"))
+        # files whose paths collide (a file where a directory is needed) are dropped in favour of the directory
+        keys = sorted(files)
+        for k in keys:
+            if any(o != k and o.startswith(k + "/") for o in keys):
+                files.pop(k)
+        # std::fs::create_dir_all fails with ENOENT on a not yet existing path that ends in "/." (mkdir "gen/." cannot
+        # create gen, and Path::parent skips the dot); that is the OS's, so such a directory is made to exist beforehand
+        dirs = ["/".join(resolve("/w", "app", w))] if w.rstrip("/").endswith("/.") else []
+        scs.append({"name": "outdir-%d-%s" % (i, src), "out_string": w, "cwd": "app", "proj_dir": "app/src-tauri", "dirs": dirs,
+                    "files": files, "runs": runs, "tmpdir": "same"})
+    return scs
+
+
+# ---- foreign files whose CONTENT resembles generated output
+HEADER = ("/**\n * Auto-generated TypeScript bindings for Tauri commands\n * Generated by tauri-typegen v0.4.0\n"
+          " * Generated at: 2025-01-01T00:00:00+00:00\n * Generator: none\n *\n"
+          " * Do not edit manually - regenerate using: cargo tauri-typegen generate\n */\n")
+
+
+def content_scenarios(rng=None, count=0):
+    """Foreign files with non-reserved names carrying the generator's header (at the start, after a few bytes, in the
+    middle, truncated), whole and partial copies of files the tool generated in an earlier run, in the output directory,
+    below it and beside it; histories on both entries that contain a regenerating run after an edit of a command."""
+    scs = []
+    body = "export interface Mine { id: number }\n" * 9
+    conf = tauri_conf("./src-tauri", "./gen", "none", True)
+    shapes = {"head": HEADER + body, "bom": "\ufeff" + HEADER + body, "offset": "// mine\n" + HEADER + body,
+              "middle": body + HEADER + body, "tail": body + body + HEADER, "only": HEADER, "cut": HEADER[:120],
+              "line": "// Generated by tauri-typegen\n" + body, "crlf": HEADER.replace("\n", "\r\n") + body}
+    names = ["user-types.ts", "notes.ts", "my.d.ts", "hand.tsx", "copy.txt", "README.md", "old.types.ts", "api.mts"]
+    for e in ("build", "generate", "api"):
+        for k in range(3 if not rng else count):
+            r = rng or __import__("random").Random(77 + k)
+            files = {"app/tauri.conf.json": conf}
+            for j, (sh, text) in enumerate(sorted(shapes.items())):
+                n = names[(j + k) % len(names)]
+                files["app/gen/%s-%s" % (sh, n)] = text
+                if r.random() < 0.4:
+                    files["app/gen/sub/%s-%s" % (sh, n)] = text
+                if r.random() < 0.3:
+                    files["app/%s-%s" % (sh, n)] = text
+            args = {} if e == "build" else ({"p": "./src-tauri", "o": "./gen", "viz": True} if e == "generate"
+                                            else {"p": "./src-tauri", "o": "./gen", "v": "none"})
+            copies = [["app/gen/types.ts", "app/gen/user-types.ts"], ["app/gen/commands.ts", "app/gen/commands-backup.ts"],
+                      ["app/gen/index.ts", "app/gen/sub/index-copy.ts"], ["app/gen/types.ts", "app/types-copy.ts"],
+                      ["app/gen/events.ts", "app/gen/my-events.ts"]]
+            runs = [{"entry": e, "variant": r.choice(["cmds", "events"]), "args": args},
+                    {"entry": e, "variant": "cmds2", "args": args, "copy": copies},                      # edit -> regenerates
+                    {"entry": e, "variant": None, "args": args, "copy": [["app/gen/types.ts", "app/gen/half-types.ts"]],
+                     "copy_prefix": 200},                                                                 # cache hit
+                    {"entry": e, "variant": r.choice(["cmds", "events", "nocmds"]), "args": args}]        # edit again
+            scs.append({"name": "content-%s-%d" % (e, k), "cwd": "app", "proj_dir": "app/src-tauri", "dirs": [], "files": files,
+                        "runs": runs, "tmpdir": "same"})
     return scs
 
 
